@@ -621,9 +621,29 @@ def case_in_bounds(c):
     return False
 
 
+TIE_FUNCS = ["a_real_rad2deg", "a_real_deg2rad", "a_real_atan2", "a_real_log1p", "a_real_asinh", "a_real_acosh", "a_real_atanh",
+             "a_real_norm2", "a_real_norm3", "a_real_cart2pol", "a_real_pol2cart", "a_real_cart2sph", "a_real_sph2cart"]
+
+
+def translator_tie(ctx):
+    # third tie: the scalar fallback bodies of src/math.c are REGENERATED by the translator (every A_HAVE_* off) and proved
+    # equal to the hand model, one theorem per function, for every NumOps instance satisfying the two stated laws
+    ctx.translate_and_tie([("src/math.c", TIE_FUNCS)], "GenMath", H / "TieMath.v", have=0, real=8, timeout=1200)
+
+
 def run(ctx):
+    import threading
     EXCLUDED.clear()
     ctx.prove()
+    th = threading.Thread(target=translator_tie, args=(ctx,))
+    th.start()
+    try:
+        run_ties(ctx)
+    finally:
+        th.join()
+
+
+def run_ties(ctx):
     ctx.assumptions += ["floating-point accuracy is measured on samples against mpmath (tolerance K*eps*|value|, K in the coverage), not proved",
                         "bit-exact tie: libm entry points are replaced by the same fixed substitute functions on both sides",
                         "C built with gcc -O2 -ffp-contract=off (binary64/binary32 operation by operation), AddressSanitizer on the array helpers",
